@@ -292,6 +292,9 @@ def opCData (w : World) (x : Nat) (v : CDv) : World × Ans :=
           match v' with
           | none => (w, .err)
           | some val =>
+            -- MIXED content with sub-elements: the Rust code drops them without detaching them (known finding
+            -- c03:mixed-set-cdata-drops-children); the half-detached elements are not modelled
+            if !kids.childElems.isEmpty then (w, .unsupported) else
             -- SHORT-NAME: duplicate check and previous path
             let parentChain := c.dropLast
             let prev : Except Unit (Option Bytes) :=
@@ -411,7 +414,17 @@ def opRmAttr (w : World) (x a : Nat) : World × Ans :=
   match locate w x with
   | none =>
     -- removed elements keep their attributes; the call works on them too
-    (w, .ok "false")
+    match w.dead.find? (·.id == x) with
+    | none => (w, .ok "false")
+    | some h =>
+      if h.attrs.any (·.1 == a) then
+        match S.findAttr h.ety.typ a with
+        | some (_, req, _) =>
+          if req then (w, .ok "false")
+          else
+            ({ w with dead := w.dead.map fun d => if d.id == x then { d with attrs := d.attrs.filter (·.1 != a) } else d }, .ok "true")
+        | none => (w, .ok "false")
+      else (w, .ok "false")
   | some (k, c) =>
     let m := w.models[k]!
     let (h, _) := lastOf c
@@ -480,7 +493,9 @@ def fixComment : Bytes → Bytes
 
 def opComment (w : World) (x : Nat) (cm : Option Bytes) : World × Ans :=
   match locate w x with
-  | none => (w, .ok "")
+  | none =>
+    -- through a stale handle the detached element is changed (visible if it is copied later)
+    ({ w with dead := w.dead.map fun d => if d.id == x then { d with comment := cm.map fixComment } else d }, .ok "")
   | some (k, _) =>
     let m := w.models[k]!
     (setModel w k (m.setRoot (m.rootItems.modify x fun h0 k0 => ({ h0 with comment := cm.map fixComment }, k0))), .ok "")
